@@ -186,6 +186,8 @@ class TLoop(gate.GVLoop):
     def run_forever(self):
         rt = self.rt
         me = rt.me()
+        if rt.ctl.me() is not None:
+            rt.ctl.gate('enter')               # taking over the loop is a visible operation
         rt.ev(me, 'enter', len(rt.inside))     # payload: how many threads are already inside
         rt.inside.append(me)
         try:
@@ -290,7 +292,7 @@ class WCtl(gate.Ctl):
     """Controller with a real-time watchdog: a managed thread that keeps the baton for
     more than `patience` seconds (it blocks in a primitive the harness does not gate) ends
     the run with the verdict 'hang' instead of hanging the check."""
-    patience = 4.0
+    patience = 2.0
 
     def run(self):
         import time
@@ -410,8 +412,13 @@ def make_run_coro_ts(rt):
     return run_coroutine_threadsafe
 
 
+_HANGS = [0]
+
+
 def run_case(case, chooser=None, max_steps=1500):
     """Run one case on the real library.  Returns the observation dict."""
+    if _HANGS[0] >= 3:       # this process already leaked blocked threads three times: do not pile up more
+        return dict(res='hang', log=[], stuck=[], texc=[], sched=[], choices=[])
     import aiuti.asyncio as A
     logging.disable(logging.CRITICAL)
     warnings.simplefilter('ignore')
@@ -540,6 +547,8 @@ def run_case(case, chooser=None, max_steps=1500):
         stuck = [[nm, op] for nm, op in ctl.stuck()] if res != 'ok' else []
         texc = [[nm, type(ctl.th[nm]['exc']).__name__] for nm in ctl.order if ctl.th[nm]['exc'] is not None]
         sched = [nm for nm, _ in ctl.trace if nm != 'adv']
+        if res == 'hang':
+            _HANGS[0] += 1
         if res != 'ok':
             ctl.abort()
     finally:
